@@ -273,6 +273,10 @@ func (n *cnode) nodeState() obj {
 	cl := n.cl
 	h := n.st.Height()
 	o := obj{"h": absNum(uint64(h)), "view": absNum(uint64(n.st.View())), "prepared": -1, "committed": false, "lastnv": 0, "member": false}
+	if n.wedged { // its term and storage may be locked for good
+		o["wedged"] = true
+		return o
+	}
 	term := n.worker.VerifTerm()
 	if term != nil && term.VerifTermInCommittee() != nil {
 		s := term.VerifTermInCommittee().VerifSnapshot()
